@@ -1302,6 +1302,82 @@ pub fn long_runs(prop: &str, tier: Tier, gzip_level: Option<u32>, extra_polls: u
     })
 }
 
+/// The streaming "zoo": a fixed set of history shapes (write sizes relative to the chunk size)
+/// against every combination of chunk size {1, 2, 3, 7, 8, 19, 255, 256, 512, 1000, 4096, 16384,
+/// 65536} x coding {identity, gzip level 0 / 1 / 6 / 9} x waker discipline {same, fresh per poll} x
+/// payload {incompressible, 'a'-run}. The depth-bounded products above take a few chunk sizes and
+/// levels each; this crosses all of them with histories that contain every operation (also abort
+/// and body drop), so that a defect which needs one particular chunk size, level or waker
+/// discipline *and* a shape some other sweep has is still met. Findings are filtered by `prop`.
+pub fn stream_zoo(prop: &str, tier: Tier) -> Stats {
+    let chunks: Vec<usize> = vec![1, 2, 3, 7, 8, 19, 255, 256, 512, 1000, 4096, 16_384, 65_536];
+    let mut cfgs: Vec<Config> = Vec::new();
+    for &c in &chunks {
+        for (accept, level) in [(None, 6u32), (Some("gzip"), 0), (Some("gzip"), 1), (Some("gzip"), 6), (Some("gzip"), 9)] {
+            for fresh in [false, true] {
+                for payload in [Payload::Rand, Payload::Rep] {
+                    if tier == Tier::Quick && payload == Payload::Rep && (accept.is_none() || level == 0) {
+                        continue; // the payload class only matters to the encoder
+                    }
+                    cfgs.push(Config { chunk: c, level, accept: accept.map(|s| s.to_string()), payload, fresh_wakers: fresh });
+                }
+            }
+        }
+    }
+    let shapes = |c: usize, s: usize| -> Vec<Vec<Op>> {
+        vec![
+            vec![Op::DW],
+            vec![Op::F, Op::DW],
+            vec![Op::WA(s), Op::DW],
+            vec![Op::WA(s), Op::F, Op::DW],
+            vec![Op::WA(s), Op::FPP, Op::WA(s), Op::DW, Op::PP],
+            vec![Op::W(s), Op::W(0), Op::FPP, Op::W(1), Op::DW],
+            vec![Op::F, Op::WA(s), Op::FPP, Op::WA(c), Op::F, Op::PP],
+            vec![Op::P, Op::WA(s), Op::F, Op::P, Op::P, Op::WA(1), Op::FPP, Op::DW],
+            vec![Op::P, Op::P, Op::WA(s), Op::FPP, Op::P, Op::DW],
+            vec![Op::WA(1), Op::WA(s), Op::WA(1), Op::DW],
+            vec![Op::WA(s), Op::A, Op::P, Op::W(1), Op::F],
+            vec![Op::WA(s), Op::FPP, Op::A, Op::F, Op::P],
+            vec![Op::P, Op::A],
+            vec![Op::WA(s), Op::F, Op::A, Op::PP],
+            vec![Op::WA(s), Op::DB, Op::W(c), Op::F],
+            vec![Op::WA(s), Op::F, Op::P, Op::DB, Op::F, Op::W(1)],
+            vec![Op::DB, Op::WA(s), Op::F],
+            vec![Op::WA(s), Op::FPP, Op::DB, Op::WA(1), Op::F],
+        ]
+    };
+    let mut cases: Vec<(Config, Vec<Op>)> = Vec::new();
+    for cfg in &cfgs {
+        let c = cfg.chunk;
+        let mut sizes = vec![1usize, c.saturating_sub(1).max(1), c, c + 1, 3 * c + 1];
+        if c <= 1000 {
+            sizes.push(70_001); // far beyond the chunk and the encoder's buffers
+        }
+        sizes.sort();
+        sizes.dedup();
+        for s in sizes {
+            for h in shapes(c, s) {
+                cases.push((cfg.clone(), h));
+            }
+        }
+    }
+    par_for(cases.len() as u64, threads(), |i, st| {
+        let (cfg, ops) = &cases[i as usize];
+        let o = execute(cfg, ops, 2);
+        st.evaluations += 1;
+        for (k, s) in o.states.iter().enumerate() {
+            st.states.insert(*s);
+            if k > 0 {
+                st.transition(o.states[k - 1], o.labels[k - 1], *s);
+            }
+        }
+        st.outcome(o.class.clone());
+        st.nontrivial(&(cfg, ops, "zoo"));
+        st.count("stream_zoo_histories", 1);
+        report(prop, cfg, ops, 2, &o, st, (1 << 54) + i);
+    })
+}
+
 /// Streaming half of C12 / C20: the same history sweeps, reporting only that property's
 /// findings (C12: the per-step hint / end-flag monitor; C20: `extra` polls after the terminal
 /// event).
@@ -1324,5 +1400,6 @@ pub fn run_monitor(prop: &str, tier: Tier, extra_polls: usize) -> Stats {
     }
     total.merge(long_runs(prop, tier, None, extra_polls));
     total.merge(long_runs(prop, Tier::Quick, Some(6), extra_polls));
+    total.merge(stream_zoo(prop, tier));
     total
 }
